@@ -22,7 +22,7 @@ NOT_APPLICABLE = {}
 
 CHECKS = {}
 
-CHECKS["C12"] = {
+CHECKS['C12'] = {
     "technique": 'effect-log abstract interpretation (lock typestate read off ordered call logs) + alias analysis',
     "text": (
         "Lock discipline of ThreadsafeForwardingResult decided on abstract runs of every public method against a symbolic semaphore and a target whose every call may raise (non-blocking acquire may fail): the semaphore is released exactly once on every path, every use of the shared target (calls and attribute reads) happens while it is held, nothing re-acquires while held, the per-test block is start time, startTest, end time, run-level then test tags, outcome, stopTest -- also when the outcome raises -- with the test's arguments passed on and the buffers reset; the forwarder shares no other mutable state. That makes the schedule irrelevant, the right level for a property quantified over all interleavings that a test can only sample. Decided by abstract interpretation of the current source (effect logs over symbolic objects, all paths incl. exceptional ones, environment given by stated oracles); testtools is never imported or run."
@@ -32,7 +32,7 @@ CHECKS["C12"] = {
     ),
 }
 
-CHECKS["C15"] = {
+CHECKS['C15'] = {
     "technique": 'abstract interpretation of Spinner.run against a modelled reactor replaying scripts of reactor events (+ Deferred chains, DelayedCall typestate)',
     "text": (
         "Spinner.run on a spinner used before, for every kind of user function (returns, raises, returns a fired / failed / pending Deferred) and every script of reactor events (Deferred fires or fails, timeout call runs, a signal handler calls reactor.stop, pairs of them in one iteration in both orders, reactor.run raising): returns the function's value / raises its failure / TimeoutError(function, timeout) / NoResultError; function called once with its arguments; the reactor never spins for ever; a late result does not replace the TimeoutError, an early one cancels the timeout; results of a previous run never show; reactor.stop is the crash substitute while spinning and the original afterwards; every available preserved signal saved before and re-installed after on every path; leftovers cancelled / removed and remembered as junk; stale junk refused before anything is touched. not_reentrant over the one boolean it guards (marked while running, unmarked on return and on any exception, nested entry refused without clearing the mark). Decided by abstract interpretation of the current source (effect logs over symbolic objects, all paths incl. exceptional ones, environment given by stated oracles); testtools is never imported or run."
@@ -42,7 +42,7 @@ CHECKS["C15"] = {
     ),
 }
 
-CHECKS["C13"] = {
+CHECKS['C13'] = {
     "technique": 'effect-log abstract interpretation against schedules of worker events and an interrupt at every external call',
     "text": (
         "Worker wrapper: for a sub-suite that returns, raises an Exception or is interrupted (and a holder whose run() may raise) -- run() called once with the per-worker result, exactly one completion signal on every path and nothing after it, a crash contained and reported as ErrorHolder('broken-runner...', error=sys.exc_info()) against the same result. Coordinator: two sub-suites, threads / queue / semaphore / per-worker results as numbered symbolic objects, the queue replaying every schedule of a table of worker-event orders and raising Deadlock when run() waits for an event nobody sends -- one started Thread per sub-suite running the wrapper, return only after every thread was joined and every event consumed, registration before start, an interrupt at each external call propagates after stop() on every worker not yet finished, one shared Semaphore(1)/queue, per-worker pipelines, status events forwarded unchanged in order, a worker forgotten only on its own stopTestRun, unknown events rejected. Decided by abstract interpretation of the current source (effect logs over symbolic objects, all paths incl. exceptional ones, environment given by stated oracles); testtools is never imported or run."
@@ -52,7 +52,7 @@ CHECKS["C13"] = {
     ),
 }
 
-CHECKS["C18"] = {
+CHECKS['C18'] = {
     "technique": 'abstract interpretation of the code as written over objects built by their real constructors (ttsa.objects: instances, heap, closures, properties, lazy generators), driven by scenario tables; rules read ordered call logs -- StreamResultRouter driven through histories (ttsa.rules.streamobjects)',
     "text": (
         "Each event reaches exactly one sink (route-prefix rule, then test-id rule, then fallback; only the first segment selects; no destination is an error), also after rules were added or replaced mid-stream; the sink sees every field unchanged and the route code without exactly its first segment under a consuming rule (None when nothing is left); StreamToQueue's prefixing and a consuming rule are inverse; startTestRun / stopTestRun reach exactly the registered sinks once per run over two runs, including a sink that joined mid-run; unknown policies are refused before any state change."
@@ -62,7 +62,7 @@ CHECKS["C18"] = {
     ),
 }
 
-CHECKS["C11"] = {
+CHECKS['C11'] = {
     "technique": 'abstract interpretation of the code as written over objects built by their real constructors (ttsa.objects: instances, heap, closures, properties, lazy generators), driven by scenario tables; rules read ordered call logs -- stream decorators fed events (ttsa.rules.streamobjects) + local alias analysis',
     "text": (
         "CopyStreamResult, StreamTagger, TimestampingStreamResult, StreamFailFast and StreamToQueue: every event method reaches every target once, in list order, during the call; every status field arrives unchanged except the owned one, which changes only as documented (tags: (incoming | add) - discard or None; timestamp: only when missing; fail-fast: 'fail' and 'uxsuccess' only; queue: route code prefixed); the caller's tag set is the same object with the same members afterwards. Alias rule over every StreamResult subclass: no in-place mutation of a value received from the caller."
@@ -72,7 +72,7 @@ CHECKS["C11"] = {
     ),
 }
 
-CHECKS["C04"] = {
+CHECKS['C04'] = {
     "technique": "abstract interpretation of the code as written over objects built by their real constructors (ttsa.objects: instances, heap, closures, properties, lazy generators), driven by scenario tables; rules read ordered call logs -- client programs given as source and run as written (ttsa.rules.resultmodel), unittest.TestResult followed in the standard library's source",
     "text": (
         "Ten stacks of testtools' own results (TestResult, TextTestResult, ExtendedToOriginalDecorator, TestResultDecorator, Tagger, MultiTestResult, ThreadsafeForwardingResult, two-level stacks) x six outcomes: wasSuccessful() of wrapper and wrapped result is False exactly after an error, a failure or an unexpected success, also when a passing test follows; a new startTestRun resets verdict, collections, counters and the stop flag and keeps failfast; with failfast set (on the target before wrapping, or on the wrapper after) shouldStop is False after startTest and True after the outcome exactly for the three failing outcomes; stop() reaches every wrapped result; the same under the decorator over 2.6-style and foreign results and for ExtendedToStreamDecorator with StreamFailFast. TextTestResult's writes after histories with 0..3 problems: count, OK iff successful, FAILED (failures=N), one section per problem. TestToolsTestRunner.run and TestProgram.runTests: failfast handed on, run bracketed also when the test raises, exit status = not wasSuccessful()."
@@ -82,37 +82,37 @@ CHECKS["C04"] = {
     ),
 }
 
-CHECKS["C08"] = {
+CHECKS['C08'] = {
     "technique": 'abstract interpretation of the code as written over objects built by their real constructors (ttsa.objects: instances, heap, closures, properties, lazy generators), driven by scenario tables; rules read ordered call logs -- client programs given as source over three flavours of symbolic target results',
     "text": (
-        'Every outcome x {exc_info / reason, details} through ExtendedToOriginalDecorator to a 2.6-style, a 2.7-style and an extended result (a target without details= answers the attempt with TypeError): exactly one accepted delivery, of the method the documented degradation table names, with the test first and -- where details had to be converted -- an exc_info triple / reason made from all of them; a failing outcome never arrives as a passing one. Full histories (startTestRun, time, tags, startTest, outcome, time, stopTest, stop, time(None), stopTestRun) through TestResultDecorator, Tagger, MultiTestResult and two-level stacks reach each target once, in order, with arguments. TestByTestResult over two tests: one callback per test at stopTest with status word, times, tags current in the test and details; nothing carried over. An empty details dict / an empty reason counts as given; neither or both is refused. A PlaceHolder reports every outcome to every flavour. Class table: attributes read on reported tests exist on TestCase and PlaceHolder.'
+        'Every outcome x {exc_info / reason, details} through ExtendedToOriginalDecorator to a 2.6-style, a 2.7-style and an extended result (a target without details= answers the attempt with TypeError): exactly one accepted delivery, of the method the documented degradation table names, with the test first and -- where details had to be converted -- an exc_info triple / reason made from all of them; a failing outcome never arrives as a passing one. Full histories (startTestRun, time, tags, startTest, outcome, time, stopTest, stop, time(None), stopTestRun) through TestResultDecorator, Tagger, MultiTestResult and two-level stacks reach each target once, in order, with arguments. TestByTestResult over two tests: one callback per test at stopTest with status word, times, tags current in the test and details; nothing carried over. An empty details dict / an empty reason counts as given; neither or both is refused. A PlaceHolder reports every outcome to every flavour. Class table: attributes read on reported tests exist on TestCase and PlaceHolder. Every wrapper over every wrapper (two levels, 15 stacks of TestResultDecorator / Tagger / MultiTestResult / ExtendedToOriginalDecorator): a call survives each way the classes name their parameters.'
     ),
     "note": (
         'The text inside synthetic exceptions is only required to be made from all details. One genuine defect is recorded as known findings (a PlaceHolder reporting an unexpected success to a 2.6-style result raises): two class-table sites and the scenario in which it happens.' + TRUSTED
     ),
 }
 
-CHECKS["C01"] = {
+CHECKS['C01'] = {
     "technique": 'abstract interpretation of the code as written over objects built by their real constructors (ttsa.objects: instances, heap, closures, properties, lazy generators), driven by scenario tables; rules read ordered call logs -- TestCase.run with scripted user code (ttsa.rules.casemodel)',
     "text": (
-        'A TestCase is built by its real __init__ and run(); RunTest, the handler table, the result adapter and everything they create are interpreted; setUp / test / tearDown / cleanup are scripts that return or raise (failure, error, skip, KeyboardInterrupt, SystemExit, MultipleExceptions), the result logs. Over 43 combinations of stage outcomes and further scenarios (unittest.skip markers, a 2.6-style result, a result method that raises, run() without a result, a second run): startTest first and stopTest last exactly once; exactly one outcome, a success only if nothing raised; no user exception escapes except a non-Exception one, which is reported as an error, lets the later stages run and is re-raised after stopTest; the default result is bracketed by startTestRun / stopTestRun.'
+        'A TestCase is built by its real __init__ and run(); RunTest, the handler table, the result adapter and everything they create are interpreted; setUp / test / tearDown / cleanup are scripts that return or raise (failure, error, skip, KeyboardInterrupt, SystemExit, MultipleExceptions), the result logs. Over 43 combinations of stage outcomes and further scenarios (unittest.skip markers, a 2.6-style result, a result method that raises, run() without a result, a second run): startTest first and stopTest last exactly once; exactly one outcome, a success only if nothing raised; no user exception escapes except a non-Exception one, which is reported as an error, lets the later stages run and is re-raised after stopTest; the default result is bracketed by startTestRun / stopTestRun. A KeyboardInterrupt that arrives inside a MultipleExceptions (one to three levels deep, from the test and from a cleanup) is reported, the later stages run, and it is re-raised after stopTest.'
     ),
     "note": (
         'Decides every path of the runner for the scripted programs; programs differ from real ones only in what user code does between calls of the TestCase API (it returns or raises, possibly after calling that API). Behaviour when an addOnException handler raises is only required to keep the bracket. Per-flavour delivery of the calls is C08. One genuine defect is a recorded known finding (an empty MultipleExceptions yields no outcome).' + TRUSTED
     ),
 }
 
-CHECKS["C03"] = {
+CHECKS['C03'] = {
     "technique": 'abstract interpretation of the code as written over objects built by their real constructors (ttsa.objects: instances, heap, closures, properties, lazy generators), driven by scenario tables; rules read ordered call logs -- TestCase.run with scripted user code',
     "text": (
-        'Over stage-outcome combinations (incl. several cleanups of which one fails): addSuccess iff nothing raised. One exception of each kind -- failure, error, skip, expected failure, unexpected success, user subclasses of those, exceptions made without arguments, KeyboardInterrupt / SystemExit -- in each stage gives exactly the outcome its type maps to. (class, handler) pairs the user puts first / last in exception_handlers take part in list order and receive (case, result, exception). An expectThat mismatch in any stage does not raise, the stage goes on, the finished test is a failure; force_failure survives later skips / expected failures. For every ordered pair of stages (same stage: one MultipleExceptions; two cleanups), a failure / error raised first and a skip / expected failure raised later must leave an unsuccessful outcome.'
+        "Over stage-outcome combinations (incl. several cleanups of which one fails): addSuccess iff nothing raised. One exception of each kind -- failure, error, skip, expected failure, unexpected success, user subclasses of those, exceptions made without arguments, KeyboardInterrupt / SystemExit -- in each stage gives exactly the outcome its type maps to. (class, handler) pairs the user puts first / last in exception_handlers take part in list order and receive (case, result, exception). An expectThat mismatch in any stage does not raise, the stage goes on, the finished test is a failure; force_failure survives later skips / expected failures. For every ordered pair of stages (same stage: one MultipleExceptions; two cleanups), a failure / error raised first and a skip / expected failure raised later must leave an unsuccessful outcome. Handlers the user's own code inserts into exception_handlers while the test runs (in setUp, in the test) take part in list order like those put there before run()."
     ),
     "note": (
         "The never-masked clause is violated by today's code: eight (first stage, later stage) pairs are recorded known findings (last-exception-wins outcome selection) and printed on every run; they are keyed by the pair, so a different masking path is still reported. Matchers are scripted (match() returns None or a mismatch); real matcher semantics are C06." + TRUSTED
     ),
 }
 
-CHECKS["C02"] = {
+CHECKS['C02'] = {
     "technique": 'abstract interpretation of the code as written over objects built by their real constructors (ttsa.objects: instances, heap, closures, properties, lazy generators), driven by scenario tables; rules read ordered call logs -- TestCase.run with scripted user code; receiver-sensitive class-hierarchy analysis for call shapes',
     "text": (
         "Stage outcomes x cleanup registration sites (setUp, test, tearDown, a cleanup that runs first, the one that runs last) x raising cleanups (Exception and KeyboardInterrupt): setUp first, test and tearDown iff setUp returned, then every cleanup exactly once with its arguments in reverse registration order (one registered while the cleanups run is the next to run), none left registered; a missing upcall is an error and does not stop the cleanups. patch() of an existing and a non-existing attribute and the same one twice: the new value holds during the test, the pre-test value or absence after run(), whatever raises; MonkeyPatcher alone likewise; useFixture sets up, registers cleanUp in LIFO position, a failing fixture setUp is the test's error. Nine programs run twice on one instance give the same history twice. The Twisted runner's drain loop is run the same way (model shared with C14). R-CALL-SHAPE: every self.m(...) / super().m(...) call shape is accepted by the method it resolves to for every receiver class whose reachable bodies contain it."
@@ -122,37 +122,37 @@ CHECKS["C02"] = {
     ),
 }
 
-CHECKS["C05"] = {
+CHECKS['C05'] = {
     "technique": 'abstract interpretation of the code as written over objects built by their real constructors (ttsa.objects: instances, heap, closures, properties, lazy generators), driven by scenario tables; rules read ordered call logs -- TestCase.run with scripted user code, fixtures, matchers and handlers',
     "text": (
-        "What is read is the `details` argument of the one outcome call. For every outcome kind the details contain every detail attached by any stage, as attached, plus the skip / expected-failure reason (also the default one); exactly one TracebackContent per failure / error raised -- each constituent of a (nested) MultipleExceptions, the assertion behind an expected failure -- built from that exception's exc_info, none for outcome signals; user details named like generated ones ('traceback', 'traceback-1', 'Failed expectation', a fixture's and a mismatch's names, also attached between two exceptions) are all still there unchanged next to the generated ones; every detail of the mismatch of a failing assertThat / expectThat arrives; every addOnException handler is called once per exception with its exc_info before the outcome; a fixture's details -- also when its setUp fails -- arrive as copies read when gathered (_copy_content run against a source that keeps changing); the Twisted runner attaches the debug info of every unhandled Deferred through addDetailUniqueName."
+        "What is read is the `details` argument of the one outcome call. For every outcome kind the details contain every detail attached by any stage, as attached, plus the skip / expected-failure reason (also the default one); exactly one TracebackContent per failure / error raised -- each constituent of a (nested) MultipleExceptions, the assertion behind an expected failure -- built from that exception's exc_info, none for outcome signals; user details named like generated ones ('traceback', 'traceback-1', 'Failed expectation', a fixture's and a mismatch's names, also attached between two exceptions) are all still there unchanged next to the generated ones; every detail of the mismatch of a failing assertThat / expectThat arrives; every addOnException handler is called once per exception with its exc_info before the outcome; a fixture's details -- also when its setUp fails -- arrive as copies read when gathered (_copy_content run against a source that keeps changing); the Twisted runner attaches the debug info of every unhandled Deferred through addDetailUniqueName. Every sparse subset of the names a traceback could get (traceback, traceback-1, -2, -3) taken by user details, with three failing stages: three tracebacks are added and nothing is replaced."
     ),
     "note": (
         'Byte content of real Content objects is C16; here contents are symbolic objects whose identity and time of reading are tracked. Names are only required to be distinct, not to follow a numbering scheme.' + TRUSTED
     ),
 }
 
-CHECKS["C07"] = {
+CHECKS['C07'] = {
     "technique": 'class-table rules over every matcher and mismatch class + abstract interpretation of the code as written over objects built by their real constructors (ttsa.objects: instances, heap, closures, properties, lazy generators), driven by scenario tables; rules read ordered call logs for assertThat / expectThat / assert_that / MismatchError',
     "text": (
-        "Class table: __str__ of every stock matcher resolves to a concrete body; every self.x read resolves to an assigned attribute; every mismatch class has a describe() that returns text on all paths and a get_details() that returns a dict. Run as written with a scripted matcher: assertThat stops the test with a failure exactly when match() returned a mismatch, raising MismatchError(matchee, matcher, mismatch, verbose) (also annotated, also verbose); assertions.assert_that likewise; str() of a MismatchError for text / bytes / number / tuple matchees, verbose or not, never raises, is the mismatch's description and quotes text through text_repr; expectThat never raises, the stage goes on, and the finished test is a failure whatever later stages raise (scenarios shared with C03)."
+        "Class table: __str__ of every stock matcher resolves to a concrete body; every self.x read resolves to an assigned attribute; every mismatch class has a describe() that returns text on all paths and a get_details() that returns a dict. Run as written with a scripted matcher: assertThat stops the test with a failure exactly when match() returned a mismatch, raising MismatchError(matchee, matcher, mismatch, verbose) (also annotated, also verbose); assertions.assert_that likewise; str() of a MismatchError for text / bytes / number / tuple matchees, verbose or not, never raises, is the mismatch's description and quotes text through text_repr; expectThat never raises, the stage goes on, and the finished test is a failure whatever later stages raise (scenarios shared with C03). No mismatch class defines __bool__ / __len__ (the helpers test `if mismatch`: a falsy mismatch would pass for a match)."
     ),
     "note": (
         'The text_repr round trip over all code points and the wording of descriptions are value properties and are not decided (seed S-C07-b is outside reach).' + TRUSTED
     ),
 }
 
-CHECKS["C06"] = {
+CHECKS['C06'] = {
     "technique": 'class-table rules (return kinds, falsy mismatches, purity / alias analysis, order independence) + abstract interpretation of the code as written over objects built by their real constructors (ttsa.objects: instances, heap, closures, properties, lazy generators), driven by scenario tables; rules read ordered call logs for the combinators',
     "text": (
-        '23 combinator expressions -- Not, Annotate, AfterPreprocessing, MatchesAll (also first_only), MatchesAny, AllMatch, AnyMatch, MatchesListwise (equal and unequal lengths), MatchesStructure (also a None attribute), MatchesAllDict, MatchesDict / ContainsDict / ContainedByDict on dicts with missing, extra and common keys, Raises over a callable that returns / raises / is interrupted -- are built over scripted component matchers and run for every combination of component verdicts: match() returns None exactly when the declared truth function holds and otherwise an object, never a bool, a string or a collection. Class-table rules over every stock matcher: match() return kinds, no mismatch object can be falsy, matching stores nothing on the matcher and mutates neither matcher nor matchee, no first-match selection over a hash-ordered set; %-formatting of a matchee is decided by running the function on a tuple and on a non-tuple matchee.'
+        '23 combinator expressions -- Not, Annotate, AfterPreprocessing, MatchesAll (also first_only), MatchesAny, AllMatch, AnyMatch, MatchesListwise (equal and unequal lengths), MatchesStructure (also a None attribute), MatchesAllDict, MatchesDict / ContainsDict / ContainedByDict on dicts with missing, extra and common keys, Raises over a callable that returns / raises / is interrupted -- are built over scripted component matchers and run for every combination of component verdicts: match() returns None exactly when the declared truth function holds and otherwise an object, never a bool, a string or a collection. Class-table rules over every stock matcher: match() return kinds, no mismatch object can be falsy, matching stores nothing on the matcher and mutates neither matcher nor matchee, no first-match selection over a hash-ordered set; %-formatting of a matchee is decided by running the function on a tuple and on a non-tuple matchee. Option and shape variants of the truth tables (MatchesListwise under first_only with wrong lengths, combinators without components, AfterPreprocessing(annotate=False)): an option that only chooses what is reported does not change the verdict.'
     ),
     "note": (
         "Leaf predicates over values (Equals, SameMembers as a multiset, regex and filesystem matchers) are value properties and not decided; MatchesSetwise's assignment search is covered by the order-independence rule and its repaired implementation (fix f09af48), not by a truth table." + TRUSTED
     ),
 }
 
-CHECKS["C17"] = {
+CHECKS['C17'] = {
     "technique": 'typestate over all method histories (context followed by value through aliases) + effect-log runs + symbolic set algebra',
     "text": (
         "For every class that owns a TagContext chain the methods startTestRun / startTest / stopTest / tags / current_tags are interpreted over the abstract context (depth 0 / 1 / 2+, None, unset; followed through self._tags, locals and .parent); all histories are explored to closure: no None/unset dereference, stopTest never pops the run level (also the start-less stopTest unittest emits), push/pop inverse, siblings agree. TagContext on symbolic set expressions: a child starts from a fresh copy of the parent's tags, get_current_tags hands out a fresh set, change_tags is (own | new) - gone on its own set. ThreadsafeForwardingResult: tags() changes the per-test buffer iff a test is open, always the forwarder's own context, never the target; the block replays run-level then test tags, each iff non-empty. Stream side: the record keeps the latest tags an event carried; the final status carries current_tags; PlaceHolder adds and removes the same tags around its bracket. Decided by abstract interpretation of the current source (effect logs over symbolic objects, all paths incl. exceptional ones, environment given by stated oracles); testtools is never imported or run."
@@ -162,17 +162,17 @@ CHECKS["C17"] = {
     ),
 }
 
-CHECKS["C09"] = {
+CHECKS['C09'] = {
     "technique": 'abstract interpretation of the code as written over objects built by their real constructors (ttsa.objects: instances, heap, closures, properties, lazy generators), driven by scenario tables; rules read ordered call logs -- both stream decorators driven through histories (ttsa.rules.streamobjects)',
     "text": (
-        "ExtendedToStreamDecorator fed TestResult calls whose details hand out 0 / 1 / several chunks: one 'inprogress' event, per detail its chunks once and in order with eof exactly on the last, one final status event last; every event carries the id, the supplied (else current) time, name / bytes / MIME type, the final one status and current tags; each outcome travels as its documented status. The round trip through StreamToExtendedDecorator gives one bracket per test with the same id, outcome (error as failure), tags, times, skip reason and every non-empty detail with its bytes and content type; tests left in progress are replayed as failures."
+        "ExtendedToStreamDecorator fed TestResult calls whose details hand out 0 / 1 / several chunks: one 'inprogress' event, per detail its chunks once and in order with eof exactly on the last, one final status event last; every event carries the id, the supplied (else current) time, name / bytes / MIME type, the final one status and current tags; each outcome travels as its documented status. The round trip through StreamToExtendedDecorator gives one bracket per test with the same id, outcome (error as failure), tags, times, skip reason and every non-empty detail with its bytes and content type; tests left in progress are replayed as failures. A detail whose first chunk is the very object its last chunk is gets eof on the last chunk only."
     ),
     "note": (
         "Chunk contents are constants of the scenarios; arbitrary byte values are C16's subject." + TRUSTED
     ),
 }
 
-CHECKS["C10"] = {
+CHECKS['C10'] = {
     "technique": 'abstract interpretation of the code as written over objects built by their real constructors (ttsa.objects: instances, heap, closures, properties, lazy generators), driven by scenario tables; rules read ordered call logs -- stream consumers driven through event histories (ttsa.rules.streamobjects)',
     "text": (
         "StreamToDict, StreamSummary and StreamToExtendedDecorator fed histories that use every status, several tests at once, the same id under two route codes, events without id, attachments in several chunks, an 'exists' announcement for a test under way, positional arguments: each test is reported exactly once (at its final status or as incomplete at stopTestRun) with its last status, latest tags, first and last timestamps and chunks in arrival order; nothing stays in the table; testsRun counts each non-'exists' test once, each lands in the list its status names, failed and incomplete tests make wasSuccessful() false."
@@ -182,7 +182,7 @@ CHECKS["C10"] = {
     ),
 }
 
-CHECKS["C16"] = {
+CHECKS['C16'] = {
     "technique": 'obligation-tracking abstract interpretation of the read loop + effect-log runs on modelled streams / decoders + closures applied after construction',
     "text": (
         "_iter_chunks: every value read is yielded once in order or is falsy and ends the loop; on a modelled stream every read asks for chunk_size, the chunks come out in order, seek(offset, whence) first iff an offset is given (0 counts). _iter_text: one incremental decoder for the declared charset (ISO-8859-1 default), every chunk decoded in order, exactly one final flush whose non-empty result is yielded; the concatenated text is the decoded chunks. content_from_reader / _file / _stream: the byte source handed to Content is applied *after* the constructor returned -- nothing is touched before unless buffer_now; buffered content was read exactly once, chunk for chunk, can be read again and is not a one-shot iterator; chunk size and seek arguments reach the stream; the file is opened 'rb' under with. text_content / json_content bytes decode back in the declared charset. Content.__eq__ is equality of type and concatenated bytes however chunked; ContentType renders every parameter sorted. The copies made when details are gathered are materialised at copy time. Decided by abstract interpretation of the current source (effect logs over symbolic objects, all paths incl. exceptional ones, environment given by stated oracles); testtools is never imported or run."
@@ -192,7 +192,7 @@ CHECKS["C16"] = {
     ),
 }
 
-CHECKS["C19"] = {
+CHECKS['C19'] = {
     "technique": 'inductive step on a symbolic tree node (abstract interpretation with recursive calls answered symbolically) + effect-log scenario runs + unused-result rule',
     "text": (
         "iterate_tests / filter_by_ids / _flatten_tests are interpreted for every kind of node (test case, case with own filter_by_ids, plain TestSuite, custom suite with / without sort_tests or filter_by_ids, empty suites, a foreign object) with their recursive calls answered symbolically: a leaf is yielded itself and the leaves of every child once in order; filtering delegates to an own filter_by_ids, keeps a case iff its id is listed (else an empty TestSuite), filters every child once and replaces the suite's tests by the results in order; flattening gives (id, case), concatenates children of a plain suite, keeps a custom suite whole under its first test's id and calls sort_tests once. sorted_tests rejects duplicate ids before anything is flattened and returns the flattened tests ordered by key. TestProgram.__init__ for --list / --load-list on and off and runners with and without list(): the ids of every line (stripped, decoded) reach filter_by_ids whose result replaces self.test before anything runs or lists; listing prints every id. Results of filter_by_ids / sorted_tests are used at every call site. Decided by abstract interpretation of the current source (effect logs over symbolic objects, all paths incl. exceptional ones, environment given by stated oracles); testtools is never imported or run."
@@ -202,7 +202,7 @@ CHECKS["C19"] = {
     ),
 }
 
-CHECKS["C20"] = {
+CHECKS['C20'] = {
     "technique": 'abstract interpretation with Deferred chains as values, per Deferred state (unfired / fired / failed / paused) and per inner-matcher answer + who-may-call rule',
     "text": (
         "on_deferred_result calls exactly the callback for the Deferred's state with the Deferred and its result and returns its answer; afterwards the Deferred is in the state it was in (a value it is fired with later reaches later callbacks unchanged through the capture callbacks). has_no_result / succeeded(m) / failed(m): None only for the matching state and m's own answer (m asked once with the value resp. Failure), a Mismatch otherwise -- so with Always() exactly one of the three matches; a successful result and an unfired Deferred are left intact; a failure inspected by succeeded() or failed() is consumed. extract_result returns the value / raises the failure's exception / raises DeferredNotFired (also for a chain paused on a nested Deferred). SynchronousDeferredRunTest._run_user per kind of user function (returns, raises, fired / failed / pending Deferred). No call of callback / errback / cancel on a Deferred in the matcher modules (expected count 0, positive example embedded). Decided by abstract interpretation of the current source (effect logs over symbolic objects, all paths incl. exceptional ones, environment given by stated oracles); testtools is never imported or run."
@@ -212,7 +212,7 @@ CHECKS["C20"] = {
     ),
 }
 
-CHECKS["C14"] = {
+CHECKS['C14'] = {
     "technique": "effect-log abstract interpretation + Deferred chains as abstract values (Twisted's chain semantics)",
     "text": (
         'AsynchronousDeferredRunTest._run_core for the 24 combinations of its problem sources (blocking run ok / failed / timed out / interrupted x logged errors x unhandled Deferreds x junk) against symbolic fixtures, spinner and result: addSuccess(case, details=case.getDetails()) exactly once iff all clean; every logged error / unhandled failure / junk / timeout / interrupt recorded through the right recorder exactly once (result.stop() on interrupt); every source collected once; the reactor spun inside both fixtures which are left on every path. _run_deferred, _run_user and _run_cleanups with Deferreds as abstract values, one run per outcome of every stage: setUp, then test and tearDown iff setUp succeeded, then cleanups, then the forced failure; verdict True iff nothing failed; every failure recorded once -- also when recording itself raises; cleanups LIFO under any exception with tracebacks reported and the last exception returned; log-observer fixtures restore what they changed, also after a partial failure. Decided by abstract interpretation of the current source (effect logs over symbolic objects, all paths incl. exceptional ones, environment given by stated oracles); testtools is never imported or run.'
